@@ -26,6 +26,9 @@ ASSUMPTIONS = [
 ]
 
 
+RULE += ' Round 9: `progress` family - 99..300 levels that all make progress, wrapper runs of up to 99 between frames.'
+
+
 def legs(tier):
     from vlib.runner import Leg
     if tier == "quick":
